@@ -3,10 +3,13 @@
 tools/try_seed.py --suite, writing meta.json (property, what it needs to manifest, what was run, verdict, signature)."""
 import json, os, shutil, subprocess, sys
 props = sys.argv[1:]
+rnd = 1
+if props and props[0] == "--round":
+    rnd = int(props[1]); props = props[2:]
 for P in props:
     for i in (1, 2, 3):
-        src = "/tmp/seeds/%s/%d" % (P, i)
-        dst = "/verif/seeded/%s-%d" % (P, i)
+        src = "/tmp/seeds%s/%s/%d" % ("" if rnd == 1 else str(rnd), P, i)
+        dst = "/verif/seeded/%s-%d" % (P, i + 3 * (rnd - 1))
         if os.path.isdir(src):
             os.makedirs(dst, exist_ok=True)
             for f in ("patch.diff", "demo.py", "notes.md"):
@@ -38,4 +41,4 @@ for P in props:
             "strengthening": old.get("strengthening", ""),
         }
         json.dump(meta, open(os.path.join(dst, "meta.json"), "w"), indent=1)
-        print(P, i, meta["confirmed"], meta["verdict"], (meta["first_signatures"] or [""])[0][:120])
+        print(P, i + 3 * (rnd - 1), meta["confirmed"], meta["verdict"], (meta["first_signatures"] or [""])[0][:120])
